@@ -19,6 +19,7 @@ package main
 
 import (
 	"fmt"
+	"go/constant"
 	"go/token"
 	"go/types"
 	"strings"
@@ -915,4 +916,726 @@ func c17DecodeInto(w *World, call *ssa.Call) (int, int, bool) {
 		}
 	}
 	return src, dst, n > 0
+}
+
+// ---------- (d) third pass: mandatory fields checked by one loop over a fixed table ----------
+//
+// Class of rewrite: "a chain of `if x_i == K { fail }` becomes a table {x_0, ..., x_n-1} (rows possibly carrying more
+// columns, e.g. the name to report) and ONE loop that applies the same test to every row". The chain's must-pass facts
+// NE(x_i,K) are recovered from the loop by an inductive argument instead of being read off n branch edges:
+//
+//	(T) the table is a local array (or the backing array of a slice literal / of a variadic argument list): every
+//	    cell is stored at most once, at a constant index, by a store that is executed before the first read (it
+//	    strictly dominates the loop header, resp. the call the table is handed to); its address never escapes: it is
+//	    only indexed for reading, loaded as a whole (a copy), measured with len, or - as a slice - handed to module
+//	    functions that in turn only read that parameter. So at every read, cell (i, f) holds the one value stored there.
+//	(I) the loop counts: its header tests J < N and leaves when false; J is 0 whenever the header is entered through
+//	    a "restart" edge (phi edge 0, or -1 for the pre-incremented form go/ssa emits for `range`) and J+1 of the
+//	    previous evaluation through every other edge; N is the number of rows (the array length as a constant, or len
+//	    of the full slice of it / of the parameter).
+//	(B) with the edge E of a test `row(J).f op K` removed, no path leads from a successor of the header back to the
+//	    header except through restart edges: every iteration that continues the count has passed E with the row J.
+//	(X) with the header's exhaustion edge (J >= N) removed, the function has no success-capable exit (engine E1, the
+//	    mode of the caller's must-pass fact): a successful call has left the loop through that edge at least once.
+//
+// Then on every success exit: at the last passage of the exhaustion edge J >= N; J was 0 at the last restart and
+// grew by one per continuation, so the header was evaluated with J = 0, 1, ..., N-1 and each time went into the
+// body and came back (J grew), by (B) through E with row J; by (T) row J's cell f is the value v_J stored there:
+// fact op(v_J, K) for every row - the same labels the if-chain produced. A missing row yields no fact for its value, a
+// loop that stops early / skips rows / starts elsewhere fails (I), (B) or (X): the obligation then fails as before.
+//
+// The facts are composed through calls like the engine's own: a module callee whose success fact (`err == nil`,
+// `T(...)`/`F(...)`) holds on every success exit of the caller contributes its facts with its parameters replaced by
+// the arguments. A loop over a *parameter* (the table is built by the caller: `check(fields ...field)`) yields a
+// quantified fact "every element of parameter #k satisfies op(e.f, K)", instantiated at the call site with the rows
+// of the caller's table (or lifted when the caller passes on its own read-only parameter).
+//
+// The value v_J is read when the table is built, not when it is tested (unlike the if-chain). A row fact is
+// therefore only produced when v_J is a constant, a parameter or a load from an object that nothing in the function
+// may write after that load (no store through, no call receiving - formatting and logging calls apart -, no closure
+// capturing its root pointer).
+
+type c17CellKey struct{ row, field int } // field -1: the element itself
+
+type c17Tab struct {
+	arr    *ssa.Alloc
+	n      int
+	cells  map[c17CellKey]ssa.Value
+	stores []ssa.Instruction // the stores that initialise the array
+}
+
+type c17Quant struct {
+	param int    // index in fn.Params
+	field int    // -1: the element itself
+	op    string // NE / EQ
+	k     string // printed constant
+	site  string
+}
+
+func c17ConstInt(v ssa.Value) (int64, bool) {
+	k, ok := v.(*ssa.Const)
+	if !ok || k.Value == nil || k.Value.Kind() != constant.Int {
+		return 0, false
+	}
+	return constant.Int64Val(k.Value)
+}
+
+// c17Before: a is executed before b whenever b is executed (same block earlier, or a's block strictly dominates b's).
+func c17Before(a, b ssa.Instruction) bool {
+	if a.Block() == b.Block() {
+		return instrIndex(a) < instrIndex(b)
+	}
+	return a.Block().Dominates(b.Block())
+}
+
+// c17ReadOnlyAddr: the address is only loaded from (directly or through field / element addresses).
+func c17ReadOnlyAddr(v ssa.Value, depth int) bool {
+	refs := v.Referrers()
+	if refs == nil || depth > 4 {
+		return false
+	}
+	for _, r := range *refs {
+		switch x := r.(type) {
+		case *ssa.UnOp:
+			if x.Op != token.MUL {
+				return false
+			}
+		case *ssa.FieldAddr:
+			if !c17ReadOnlyAddr(x, depth+1) {
+				return false
+			}
+		case *ssa.IndexAddr:
+			if x.X != v || !c17ReadOnlyAddr(x, depth+1) {
+				return false
+			}
+		case *ssa.DebugRef:
+		default:
+			return false
+		}
+	}
+	return true
+}
+
+// c17ReadOnlySlice: the slice value is only indexed for reading, measured, or handed to module functions that only
+// read the parameter it is bound to.
+func c17ReadOnlySlice(w *World, s ssa.Value, depth int) bool {
+	refs := s.Referrers()
+	if refs == nil || depth > 3 {
+		return false
+	}
+	for _, r := range *refs {
+		switch x := r.(type) {
+		case *ssa.IndexAddr:
+			if x.X != s || !c17ReadOnlyAddr(x, 0) {
+				return false
+			}
+		case *ssa.Call:
+			if b, ok := x.Call.Value.(*ssa.Builtin); ok && (b.Name() == "len" || b.Name() == "cap") {
+				continue
+			}
+			h := staticCallee(x)
+			if h == nil || h.Blocks == nil || !w.IsProductFn(h) || len(h.Params) != len(x.Call.Args) || x.Call.Value == s {
+				return false
+			}
+			for i, a := range x.Call.Args {
+				if a == s && !c17ReadOnlySlice(w, h.Params[i], depth+1) {
+					return false
+				}
+			}
+		case *ssa.DebugRef:
+		default:
+			return false
+		}
+	}
+	return true
+}
+
+// c17TempStruct: v is the one load of a local struct whose fields are each stored at most once, all in v's block
+// before v: the fields of the value loaded.
+func c17TempStruct(v ssa.Value) map[int]ssa.Value {
+	ld, ok := v.(*ssa.UnOp)
+	if !ok || ld.Op != token.MUL {
+		return nil
+	}
+	tmp, ok := ld.X.(*ssa.Alloc)
+	if !ok || tmp.Referrers() == nil {
+		return nil
+	}
+	if _, isStruct := ld.Type().Underlying().(*types.Struct); !isStruct {
+		return nil
+	}
+	out := map[int]ssa.Value{}
+	for _, r := range *tmp.Referrers() {
+		switch x := r.(type) {
+		case *ssa.UnOp:
+			if x != ld {
+				return nil
+			}
+		case *ssa.FieldAddr:
+			if x.Referrers() == nil || len(*x.Referrers()) != 1 {
+				return nil
+			}
+			st, ok := (*x.Referrers())[0].(*ssa.Store)
+			if !ok || st.Addr != ssa.Value(x) || st.Block() != ld.Block() || instrIndex(st) > instrIndex(ld) {
+				return nil
+			}
+			if _, dup := out[x.Field]; dup {
+				return nil
+			}
+			out[x.Field] = st.Val
+		case *ssa.DebugRef:
+		default:
+			return nil
+		}
+	}
+	return out
+}
+
+// c17TableOf resolves a local array as a fixed table, condition (T) except for the placement of the stores, which
+// the user checks against its reads. nil when the array is not such a table.
+func c17TableOf(w *World, a *ssa.Alloc) *c17Tab {
+	pt, ok := a.Type().Underlying().(*types.Pointer)
+	if !ok || a.Referrers() == nil {
+		return nil
+	}
+	arr, ok := pt.Elem().Underlying().(*types.Array)
+	if !ok || arr.Len() > 64 {
+		return nil
+	}
+	_, structElem := arr.Elem().Underlying().(*types.Struct)
+	t := &c17Tab{arr: a, n: int(arr.Len()), cells: map[c17CellKey]ssa.Value{}}
+	written := map[c17CellKey]bool{}
+	mark := func(k c17CellKey) bool {
+		if written[k] || written[c17CellKey{k.row, -2}] || (k.field == -2 && c17RowTouched(written, k.row)) {
+			return false
+		}
+		written[k] = true
+		return true
+	}
+	for _, r := range *a.Referrers() {
+		switch x := r.(type) {
+		case *ssa.IndexAddr:
+			if x.X != ssa.Value(a) {
+				return nil
+			}
+			if c17ReadOnlyAddr(x, 0) {
+				continue
+			}
+			i64, isK := c17ConstInt(x.Index)
+			if !isK || i64 < 0 || i64 >= arr.Len() {
+				return nil
+			}
+			row := int(i64)
+			for _, rr := range *x.Referrers() {
+				switch y := rr.(type) {
+				case *ssa.Store:
+					// the whole element (-2 marks the row as written as a whole)
+					if y.Addr != ssa.Value(x) || !mark(c17CellKey{row, -2}) {
+						return nil
+					}
+					t.stores = append(t.stores, y)
+					if !structElem {
+						t.cells[c17CellKey{row, -1}] = y.Val
+					} else if fs := c17TempStruct(y.Val); fs != nil && c17Before(y.Val.(*ssa.UnOp), y) {
+						for f, v := range fs {
+							t.cells[c17CellKey{row, f}] = v
+						}
+					}
+				case *ssa.FieldAddr:
+					if y.Referrers() == nil || len(*y.Referrers()) != 1 {
+						return nil
+					}
+					st, ok := (*y.Referrers())[0].(*ssa.Store)
+					if !ok || st.Addr != ssa.Value(y) || !mark(c17CellKey{row, y.Field}) {
+						return nil
+					}
+					t.stores = append(t.stores, st)
+					t.cells[c17CellKey{row, y.Field}] = st.Val
+				case *ssa.DebugRef:
+				default:
+					return nil
+				}
+			}
+		case *ssa.UnOp:
+			if x.Op != token.MUL {
+				return nil
+			}
+		case *ssa.Slice:
+			if x.X != ssa.Value(a) || x.Low != nil || x.High != nil || x.Max != nil || !c17ReadOnlySlice(w, x, 0) {
+				return nil
+			}
+		case *ssa.DebugRef:
+		default:
+			return nil
+		}
+	}
+	return t
+}
+
+func c17RowTouched(written map[c17CellKey]bool, row int) bool {
+	for k := range written {
+		if k.row == row {
+			return true
+		}
+	}
+	return false
+}
+
+// c17TableBase: the array (Alloc) or slice parameter whose elements v gives access to: the array itself, a load of
+// it, its full slice, or a parameter of slice type.
+func c17TableBase(v ssa.Value) ssa.Value {
+	switch x := v.(type) {
+	case *ssa.Alloc:
+		return x
+	case *ssa.UnOp:
+		if al, ok := x.X.(*ssa.Alloc); ok && x.Op == token.MUL {
+			if _, isArr := x.Type().Underlying().(*types.Array); isArr {
+				return al
+			}
+		}
+	case *ssa.Slice:
+		if al, ok := x.X.(*ssa.Alloc); ok && x.Low == nil && x.High == nil && x.Max == nil {
+			return al
+		}
+	case *ssa.Parameter:
+		if _, isSlice := x.Type().Underlying().(*types.Slice); isSlice {
+			return x
+		}
+	}
+	return nil
+}
+
+// c17ElemRead: v is the element at index idx of the table base, read from the table's memory by instruction `read`
+// (possibly through a local that holds a copy of it).
+func c17ElemRead(v ssa.Value, depth int) (base, idx ssa.Value, read ssa.Instruction, ok bool) {
+	if depth > 3 {
+		return
+	}
+	switch x := v.(type) {
+	case *ssa.Index:
+		if ld, isLd := x.X.(*ssa.UnOp); isLd && ld.Op == token.MUL {
+			if b := c17TableBase(ld); b != nil {
+				return b, x.Index, ld, true
+			}
+		}
+	case *ssa.UnOp:
+		if x.Op != token.MUL {
+			return
+		}
+		switch p := x.X.(type) {
+		case *ssa.IndexAddr:
+			if b := c17TableBase(p.X); b != nil {
+				return b, p.Index, x, true
+			}
+		case *ssa.Alloc:
+			// a local copy: stored once as a whole, before this load, never written otherwise
+			if sv := singleStore(p); sv != nil {
+				for _, r := range *p.Referrers() {
+					if st, isSt := r.(*ssa.Store); isSt && st.Addr == ssa.Value(p) && !c17Before(st, x) {
+						return
+					}
+				}
+				return c17ElemRead(sv, depth+1)
+			}
+		}
+	}
+	return
+}
+
+// c17CellRead: v is cell (idx, field) of the table base (field -1: the element itself).
+func c17CellRead(v ssa.Value) (base, idx ssa.Value, field int, read ssa.Instruction, ok bool) {
+	if b, i, rd, ok := c17ElemRead(v, 0); ok {
+		return b, i, -1, rd, true
+	}
+	switch x := v.(type) {
+	case *ssa.Field:
+		if b, i, rd, ok := c17ElemRead(x.X, 0); ok {
+			return b, i, x.Field, rd, true
+		}
+	case *ssa.UnOp:
+		fa, isFa := x.X.(*ssa.FieldAddr)
+		if x.Op != token.MUL || !isFa {
+			return
+		}
+		switch p := fa.X.(type) {
+		case *ssa.IndexAddr:
+			if b := c17TableBase(p.X); b != nil {
+				return b, p.Index, fa.Field, x, true
+			}
+		case *ssa.Alloc:
+			if sv := singleStore(p); sv != nil {
+				for _, r := range *p.Referrers() {
+					if st, isSt := r.(*ssa.Store); isSt && st.Addr == ssa.Value(p) && !c17Before(st, x) {
+						return
+					}
+				}
+				if b, i, rd, ok := c17ElemRead(sv, 1); ok {
+					return b, i, fa.Field, rd, true
+				}
+			}
+		}
+	}
+	return
+}
+
+// c17CountLoop: condition (I).
+type c17CountLoop struct {
+	H       *ssa.BasicBlock
+	J       ssa.Value
+	bound   ssa.Value
+	restart map[edgeKey]bool
+}
+
+func c17CountLoops(fn *ssa.Function) []c17CountLoop {
+	var out []c17CountLoop
+	for _, H := range fn.Blocks {
+		iff, ok := blockTerm(H).(*ssa.If)
+		if !ok || len(H.Succs) != 2 || H.Succs[0] == H.Succs[1] {
+			continue
+		}
+		bo, ok := iff.Cond.(*ssa.BinOp)
+		if !ok || bo.Op != token.LSS {
+			continue
+		}
+		J := bo.X
+		var phi *ssa.Phi
+		pre := false
+		if p, ok := J.(*ssa.Phi); ok && p.Block() == H {
+			phi = p
+		} else if add, ok := J.(*ssa.BinOp); ok && add.Op == token.ADD && add.Block() == H {
+			if one, isK := c17ConstInt(add.Y); isK && one == 1 {
+				if p, ok := add.X.(*ssa.Phi); ok && p.Block() == H {
+					phi, pre = p, true
+				}
+			}
+		}
+		if phi == nil || len(phi.Edges) != len(H.Preds) {
+			continue
+		}
+		lp := c17CountLoop{H: H, J: J, bound: bo.Y, restart: map[edgeKey]bool{}}
+		good, nCont, nRestart := true, 0, 0
+		for i, e := range phi.Edges {
+			cont := false
+			if pre {
+				cont = e == J
+			} else if add, ok := e.(*ssa.BinOp); ok && add.Op == token.ADD {
+				if one, isK := c17ConstInt(add.Y); isK && one == 1 && add.X == J {
+					cont = true
+				}
+				if one, isK := c17ConstInt(add.X); isK && one == 1 && add.Y == J {
+					cont = true
+				}
+			}
+			if cont {
+				nCont++
+				continue
+			}
+			k, isK := c17ConstInt(e)
+			if !isK || (pre && k != -1) || (!pre && k != 0) {
+				good = false
+				break
+			}
+			nRestart++
+			for j, s := range H.Preds[i].Succs {
+				if s == H {
+					lp.restart[edgeKey{H.Preds[i].Index, j}] = true
+				}
+			}
+		}
+		// a predecessor that is both a restart and a continuation (two edges into the header) would be cut entirely
+		// by the restart set: excluded by requiring distinct predecessors
+		seen := map[*ssa.BasicBlock]bool{}
+		for _, p := range H.Preds {
+			if seen[p] {
+				good = false
+			}
+			seen[p] = true
+		}
+		if good && nCont > 0 && nRestart > 0 {
+			out = append(out, lp)
+		}
+	}
+	return out
+}
+
+// c17StableValue: the value read when the table was built is still what its printed form says when the table is
+// tested (see the section comment).
+func c17StableValue(fn *ssa.Function, v ssa.Value) bool {
+	switch x := v.(type) {
+	case *ssa.Const, *ssa.Parameter:
+		return true
+	case *ssa.UnOp:
+		if x.Op != token.MUL {
+			return false
+		}
+		root := c17AddrRoot(x.X)
+		switch root.(type) {
+		case *ssa.Parameter, *ssa.Alloc, *ssa.Call:
+		default:
+			return false
+		}
+		// instructions that may run after the load
+		after := map[*ssa.BasicBlock]bool{}
+		stack := append([]*ssa.BasicBlock{}, x.Block().Succs...)
+		for len(stack) > 0 {
+			b := stack[len(stack)-1]
+			stack = stack[:len(stack)-1]
+			if after[b] {
+				continue
+			}
+			after[b] = true
+			stack = append(stack, b.Succs...)
+		}
+		for _, b := range fn.Blocks {
+			for i, in := range b.Instrs {
+				late := after[b] || (b == x.Block() && i > instrIndex(x))
+				switch y := in.(type) {
+				case *ssa.Store:
+					if late && c17AddrRoot(y.Addr) == root {
+						return false
+					}
+					if c17AddrRoot(unwrap(y.Val)) == root && c17PointerLike(y.Val.Type()) && !onlyFormatted(y, 0) {
+						return false // the object's address is stored somewhere (other than in the argument list of a formatting call)
+					}
+				case *ssa.MakeClosure:
+					for _, bv := range y.Bindings {
+						if c17AddrRoot(unwrap(bv)) == root {
+							return false
+						}
+					}
+				case ssa.CallInstruction:
+					_, deferred := in.(*ssa.Defer)
+					_, spawned := in.(*ssa.Go)
+					if (!late && !deferred && !spawned) || isFormattingCall(y) {
+						continue // fmt / logger calls render the object, they do not write it
+					}
+					ops := append([]ssa.Value{}, y.Common().Args...)
+					if y.Common().Value != nil {
+						ops = append(ops, y.Common().Value)
+					}
+					for _, a := range ops {
+						if c17PointerLike(a.Type()) && c17AddrRoot(unwrap(a)) == root {
+							return false
+						}
+					}
+				}
+			}
+		}
+		return true
+	}
+	return false
+}
+
+func c17PointerLike(t types.Type) bool {
+	switch t.Underlying().(type) {
+	case *types.Pointer, *types.Interface, *types.Slice, *types.Map, *types.Signature, *types.Chan:
+		return true
+	}
+	return false
+}
+
+// c17AddrRoot: the pointer an address is derived from by field / element selection only.
+func c17AddrRoot(v ssa.Value) ssa.Value {
+	for i := 0; i < 8; i++ {
+		switch x := v.(type) {
+		case *ssa.FieldAddr:
+			v = x.X
+		case *ssa.IndexAddr:
+			v = x.X
+		default:
+			return v
+		}
+	}
+	return v
+}
+
+// c17RowFacts: the facts op(v_i, k) for the rows of a table whose stores all precede `read`.
+func c17RowFacts(fn *ssa.Function, t *c17Tab, field int, op, k, site string, read ssa.Instruction, out map[string]string) {
+	for _, st := range t.stores {
+		if !c17Before(st, read) {
+			return
+		}
+	}
+	for row := 0; row < t.n; row++ {
+		v, ok := t.cells[c17CellKey{row, field}]
+		if !ok || !c17StableValue(fn, v) {
+			continue
+		}
+		out[op+"("+desc(v)+","+k+")"] = site
+	}
+}
+
+// c17LoopFacts: the facts conditions (T), (I), (B), (X) give for the loops of fn: row facts for local tables,
+// quantified facts for loops over a read-only slice parameter.
+func c17LoopFacts(c *Ctx, fn *ssa.Function, mode Mode) (map[string]string, []c17Quant) {
+	w := c.W
+	fi := w.Info(fn)
+	facts := map[string]string{}
+	var quants []c17Quant
+	for _, lp := range c17CountLoops(fn) {
+		H := lp.H
+		c.Evals++
+		// (X)
+		if fi.successWitness(mode, entryState(), map[edgeKey]bool{{H.Index, 1}: true}) != nil {
+			continue
+		}
+		for bi := range loopBlocks(H) {
+			G := fn.Blocks[bi]
+			iff, ok := blockTerm(G).(*ssa.If)
+			if !ok || G == H || len(G.Succs) != 2 || G.Succs[0] == G.Succs[1] {
+				continue
+			}
+			bo, ok := iff.Cond.(*ssa.BinOp)
+			if !ok || (bo.Op != token.EQL && bo.Op != token.NEQ) {
+				continue
+			}
+			x, kv := bo.X, bo.Y
+			if _, isK := x.(*ssa.Const); isK {
+				x, kv = kv, x
+			}
+			kc, isK := kv.(*ssa.Const)
+			if !isK || isNilConst(kc) {
+				continue
+			}
+			base, idx, field, read, ok := c17CellRead(x)
+			if !ok || idx != lp.J {
+				continue
+			}
+			// (I): the bound is the number of rows of this very table
+			var tab *c17Tab
+			pidx := -1
+			switch b := base.(type) {
+			case *ssa.Alloc:
+				tab = c17TableOf(w, b)
+				if tab == nil {
+					continue
+				}
+				if n, isN := c17ConstInt(lp.bound); isN {
+					if int(n) != tab.n {
+						continue
+					}
+				} else if lc, isCall := lp.bound.(*ssa.Call); !isCall || calleeName(lc) != "builtin:len" || len(lc.Call.Args) != 1 || c17TableBase(lc.Call.Args[0]) != base {
+					continue
+				}
+				// the table is complete before the loop is entered
+				placed := true
+				for _, st := range tab.stores {
+					if st.Block() == H || !st.Block().Dominates(H) {
+						placed = false
+					}
+				}
+				if !placed {
+					continue
+				}
+			case *ssa.Parameter:
+				lc, isCall := lp.bound.(*ssa.Call)
+				if !isCall || calleeName(lc) != "builtin:len" || len(lc.Call.Args) != 1 || lc.Call.Args[0] != base || !c17ReadOnlySlice(w, b, 0) {
+					continue
+				}
+				for i, p := range fn.Params {
+					if p == b {
+						pidx = i
+					}
+				}
+				if pidx < 0 {
+					continue
+				}
+			default:
+				continue
+			}
+			for j := 0; j < 2; j++ {
+				// (B)
+				cut := map[edgeKey]bool{{G.Index, j}: true}
+				for e := range lp.restart {
+					cut[e] = true
+				}
+				c.Evals++
+				if fi.reachHit([]state{{H.Succs[0].Index, 0, -1}, {H.Succs[1].Index, 0, -1}}, cut, map[int]bool{H.Index: true}) {
+					continue
+				}
+				op := bo.Op
+				if j == 1 {
+					op = negOp(op)
+				}
+				if tab != nil {
+					c17RowFacts(fn, tab, field, opName(op), desc(kc), w.InstrPos(iff), read, facts)
+				} else {
+					quants = append(quants, c17Quant{param: pidx, field: field, op: opName(op), k: desc(kc), site: w.InstrPos(iff)})
+				}
+			}
+		}
+	}
+	return facts, quants
+}
+
+// c17TableFacts: the table facts that hold on every success exit of fn under mode, in fn's frame, composed through
+// the module callees whose success is a must-pass fact of every success exit of fn.
+func c17TableFacts(c *Ctx, fn *ssa.Function, mode Mode, busy map[*ssa.Function]bool, depth int) (map[string]string, []c17Quant) {
+	w := c.W
+	if fn == nil || fn.Blocks == nil || depth > 3 || busy[fn] {
+		return map[string]string{}, nil
+	}
+	busy[fn] = true
+	defer delete(busy, fn)
+	facts, quants := c17LoopFacts(c, fn, mode)
+	sum := w.Summarize(fn, mode)
+	if sum == nil || !sum.Complete {
+		return facts, quants
+	}
+	for _, ci := range allCalls(fn) {
+		x, ok := ci.(*ssa.Call)
+		if !ok {
+			continue
+		}
+		h := staticCallee(x)
+		if h == nil || h == fn || h.Blocks == nil || !w.IsProductFn(h) || len(h.Params) != len(x.Call.Args) {
+			continue
+		}
+		res := h.Signature.Results()
+		var modes []Mode
+		var labels []string
+		switch {
+		case res.Len() == 1 && isErrorType(res.At(0).Type()):
+			modes, labels = []Mode{{Kind: mErr}}, []string{"EQ(" + desc(x) + ",nil)"}
+		case res.Len() > 1 && isErrorType(res.At(res.Len()-1).Type()):
+			modes, labels = []Mode{{Kind: mErr}}, []string{"EQ(" + c17ResultDesc(x, res.Len()-1) + ",nil)"}
+		case res.Len() == 1 && isBoolType(res.At(0).Type()):
+			modes, labels = []Mode{{Kind: mBool, Want: true}, {Kind: mBool, Want: false}}, []string{"T(" + desc(x) + ")", "F(" + desc(x) + ")"}
+		}
+		for mi, hm := range modes {
+			if !c17Has(sum.Checked, labels[mi]) {
+				continue
+			}
+			c.SeenFn(h.String())
+			hf, hq := c17TableFacts(c, h, hm, busy, depth+1)
+			names := make([]string, len(h.Params))
+			descs := make([]string, len(h.Params))
+			for i, p := range h.Params {
+				names[i] = p.Name()
+				descs[i] = desc(x.Call.Args[i])
+			}
+			for l, s := range hf {
+				facts[substParams(l, names, descs)] = s
+			}
+			for _, q := range hq {
+				switch b := c17TableBase(x.Call.Args[q.param]).(type) {
+				case *ssa.Alloc:
+					// the caller's table, complete before the call
+					if tab := c17TableOf(w, b); tab != nil {
+						c17RowFacts(fn, tab, q.field, q.op, q.k, q.site, x, facts)
+					}
+				case *ssa.Parameter:
+					// the caller's own read-only parameter, handed on
+					if ssa.Value(b) == x.Call.Args[q.param] && c17ReadOnlySlice(w, b, 0) {
+						for i, p := range fn.Params {
+							if p == b {
+								quants = append(quants, c17Quant{param: i, field: q.field, op: q.op, k: q.k, site: q.site})
+							}
+						}
+					}
+				}
+			}
+		}
+	}
+	return facts, quants
 }
